@@ -97,15 +97,14 @@ PlusFlagAmbiguity(p, s) == p \in {"G", "SG"} /\ (Ch(s, 1) \in {"+", "$"} \/ s = 
 \* a search request that another protocol class claims: the TAB-separated plain Gopher line "selector TAB string"
 \* can have the shape of another protocol's request grammar - "/e b.pyg<TAB>a 1" and "/echo.pyg<TAB>a b 1" are
 \* well-formed Spartan lines ("host path length": exactly two blanks, numeric last word; spartan.py splits at
-\* blanks only), so SpartanProtocol, listed before the Gopher classes, answers and the search string is lost.
-\* Same root as C05's CapturedBy_SpartanProtocol for selectors.  (A string like "a 1" after a blank-free selector
+\* blanks only), so SpartanProtocol, listed before the Gopher classes, answered and the search string was lost -
+\* until fix c3ed498 (a host never starts with "/"; Links!Claims with "spartan" \in Fixes).  Same root as C05's
+\* CapturedBy_SpartanProtocol for selectors.  No capture is tolerated any more (MC_C06!NoSearchCapture).  (A string like "a 1" after a blank-free selector
 \* is NOT such a line: only a TAB separates selector and string.)
 SearchCapturedBy(p, t, base, s) == LET cls == Parse(Follow(p, t, base, s)).cls IN IF cls = OwnClass(p) THEN "none" ELSE cls
-\* Gemini's search dialogue answers the submitted query with "30 <selector>?<query>"; since fix 1211cf5 every
-\* status line keeps <META> within the 1024 bytes of the Gemini specification by CUTTING it, so a query whose redirect
-\* does not fit is delivered truncated (instead of being refused)
-GeminiRedirectCut(p, t, base, s) ==
-    p = "M" /\ LET r1 == Parse(Follow(p, t, base, s)) IN r1.kind = "redirect" /\ Bytes(r1.redirect) > 1024
+\* (Between /repo fixes 1211cf5 and ff58814 every Gemini status line, the "30 <selector>?<query>" redirect of the search
+\* dialogue included, was cut at 1024 bytes and long queries arrived truncated through Gemini; found by this check as
+\* SameSearch_GeminiRedirectCut.  Since ff58814 only error replies are cut: SameSearch simply holds for view M.)
 \* search strings the property quantifies over: no leading/trailing blanks (Gopher request parsing strips them), not empty
 SearchInScope(s) == s # "" /\ Strip(s) = s
 =============================================================================
